@@ -653,6 +653,57 @@ def span_rule(prog, rep):
                               "which no dominating test establishes here" % (show(v), show(sarg), show(sarg), show(v)), function=f.name, construct="span-plus-one")
     return n
 
+
+# ---------------------------------------------------------------------------
+def eol_scan(prog, rep):
+    """W7: findeol(buf, buflen) looks only at bytes of the buffer it was given: every byte it reads -- through a
+    subscript, a dereference or a library comparison/search of n bytes -- lies in [buf, buf + buflen), decided relationally
+    (memchr answers NULL or a position inside the range it was given).  A '\r' in the last valid byte must not be paired
+    with whatever stale byte follows it in the reader's buffer."""
+    from .. import poly
+    from ..poly import Lin, cons
+    u = prog.unit(UNIT)
+    f = u.func("findeol")
+    if f is None:
+        raise cdb.AnalysisBroken("anchor missing: findeol")
+    buf = ("v", f.params[0]["name"], f.params[0]["id"])
+    blen = ("v", f.params[1]["name"], f.params[1]["id"])
+    B, N = Lin.var(buf), Lin.var(blen)
+
+    def memchr_contract(A, call, st, cs):
+        r = Lin.var(("$ret", A.f.name, call.pos))
+        p0, n = A.lin(call.arg(0), st), A.lin(call.arg(2), st)
+        if p0 is None or n is None:
+            return list(cs)
+        return [list(cs) + cons("==", r, Lin.const(0)), list(cs) + cons(">=", r, p0) + cons("<=", r, p0 + n - 1) + cons(">=", r, Lin.const(1))]
+    A = poly.Analysis(f, quiet={"memcmp", "memchr"}, post={"memchr": memchr_contract}, unsigned_terms={blen}).run()
+    n = 0
+    for e in f.all_elems():
+        reads = []
+        if e.cls == "CallExpr" and e.callee in ("memcmp", "memchr"):
+            st = A.state_before(e)
+            p0, cnt = A.lin(e.arg(0), st), A.lin(e.arg(2), st)
+            reads.append((st, p0, cnt, e))
+        elif e.cls == "ImplicitCastExpr" and e.op == "LValueToRValue" and e.kid(0) is not None and e.kid(0).strip().cls in ("ArraySubscriptExpr", "UnaryOperator"):
+            k = e.kid(0).strip()
+            if k.cls == "UnaryOperator" and k.op != "*":
+                continue
+            st = A.state_before(e)
+            if k.cls == "ArraySubscriptExpr":
+                b0, ix = A.lin(k.kid(0), st), A.lin(k.kid(1), st)
+                addr = b0 + ix if b0 is not None and ix is not None else None
+            else:
+                addr = A.lin(k.kid(0), st)
+            reads.append((st, addr, Lin.const(1), e))
+        for st, addr, cnt, el in reads:
+            n += 1
+            ok = addr is not None and cnt is not None and A.holds(st, ">=", addr, B) and A.holds(st, "<=", addr + cnt, B + N)
+            rep.check(ok, "W7-eol", "findeol reads %s inside [buf, buf + buflen)" % el.text[:30], el.where,
+                      "the bytes read here are not provably inside the buffer (address %s, count %s): a line end split by a read boundary would be completed "
+                      "with a stale byte beyond the valid data" % (addr, cnt), function=f.name, construct="eol-read")
+    if n < 1:
+        rep.defer_broken("W7: findeol reads nothing")
+
 # ---------------------------------------------------------------------------
 def cookie_init(prog, rep, L):
     """W5: the request record is malloc'ed, so every field holds garbage until it is stored.  Must-analysis over the whole
@@ -989,7 +1040,40 @@ def framing_order(prog, rep):
             ok = False
     rep.check(ok, "W3-framing", "HEAD/204/304 complete without a body before any framing header is consulted", g.loc,
               "no-body tests found: %s" % sorted(map(str, kinds)), function="gotheaders", construct="nobody-first")
+    # an interim 1xx response is discarded before anything is delivered: every completion in gotheaders that hands a response
+    # to the caller is on the false edge of the 100..199 test (a HEAD request answered "100 Continue" first must not complete with it)
+    ix = []
+    for b in g.blocks.values():
+        if b.cond is None:
+            continue
+        for op, Lh, R, _, _ in cond_atoms(b.cond, True):
+            if Lh[0] == "." and Lh[2] == "status" and ((op == "<=" and R == ("c", 199)) or (op == "<" and R == ("c", 200))):
+                if b not in ix:
+                    ix.append(b)
+    comps = [c for c in g.calls("docallback")]
+    ok1 = len(ix) == 1 and bool(comps)
+    if ok1:
+        b199 = ix[0]
+        inside = b199.succs[0]          # status within 100..199 here
+        dom = g.dominators()
+        for c in comps:
+            # the interim test is made before this completion, and the completion is not reachable from its "is interim" edge
+            lower = [b for b in g.blocks.values() if b.cond is not None and any(
+                L[0] == "." and L[2] == "status" and ((op == ">=" and R == ("c", 100)) or (op == ">" and R == ("c", 99))) for op, L, R, _, _ in cond_atoms(b.cond, True))
+                and b199.id in [x for x in b.succs if x is not None]]
+            tested = b199.id in dom.get(c.block.id, ()) or any(b.id in dom.get(c.block.id, ()) for b in lower)
+            if not tested or inside is None or _reach_via(g, inside, c.block.id, avoid=-1):
+                ok1 = False
+    rep.check(ok1, "W3-framing", "a 1xx interim response is discarded before any completion can deliver a response", g.loc,
+              "a docallback in gotheaders is reachable while status may still be in 100..199", function="gotheaders", construct="interim-first")
     eof = list(g.calls("callback_read_toeof"))
+    # the read-to-EOF loop waits for one byte at a time: the reader reports end-of-stream without the bytes it holds below a larger minimum
+    te_f = u.func("callback_read_toeof")
+    if te_f is not None:
+        ws = [c for c in te_f.calls("netbuf_read_wait")]
+        rep.check(len(ws) == 1 and norm(ws[0].arg(1)) == ("c", 1), "W3-framing", "a body framed by connection close is read with a minimum of one byte", te_f.loc,
+                  "waiting for more than one byte loses the tail of the body at end-of-stream (the reader reports EOF, not the bytes below the minimum)",
+                  function=te_f.name, construct="toeof-min")
     rep.check(len(eof) == 1 and g.dominates(cl, eof[0]), "W3-framing", "read-to-EOF is the fall-through", g.loc,
               "callback_read_toeof must be reached only after both look-ups failed", function="gotheaders", construct="eof-last")
     # chunked selected only when the TE value contains 'chunked'
